@@ -374,6 +374,18 @@ def split_block(toks):
             e = end_of_blocklike(toks, i)
             if e < 0:
                 raise ParseError("unbalanced block")
+            if e + 1 < n and toks[e + 1] in (".", "?"):
+                # `unsafe { .. }?;` / `match x { .. }.foo();`: the expression goes on after the block
+                e2 = find_at_depth0(toks, e + 1, (";",))
+                if e2 < 0:
+                    if keep:
+                        tail = toks[i:]
+                    i = n
+                    continue
+                if keep:
+                    stmts.append(Stmt("expr", toks[i:e2], semi=True))
+                i = e2 + 1
+                continue
             semi = e + 1 < n and toks[e + 1] == ";"
             if e + 1 >= n:
                 if keep:
@@ -872,7 +884,6 @@ def parse_expr_tokens(toks):
 #   ("coerce", v)               `NonNegativeI32::coerce_from_register(v, _)` (a Result)
 #   ("coerce_ok", v) ("coerce_err", v)   its two outcomes after `?`
 #   ("bailerr", v)              the Err built by `bail_on_below_zero!(v, _)`
-#   ("callw", name)             result of calling another wrapper of the same file
 #   ("errno", n)                `Errno::NAME`
 #   ("opq", text, tainted)      anything else; tainted = built from the register
 #
@@ -886,7 +897,7 @@ REG = ("reg",)
 
 def tainted(v):
     k = v[0]
-    if k in ("reg", "coerce", "coerce_ok", "coerce_err", "bailerr", "callw"):
+    if k in ("reg", "coerce", "coerce_ok", "coerce_err", "bailerr"):
         return True
     if k == "opq":
         return v[2]
@@ -939,25 +950,26 @@ class Lazy:
 
 
 class St:
-    """interpreter state: variable environment, whether a syscall has been issued on this path, the enclosing retry loop"""
-    __slots__ = ("env", "has_reg", "loop_break", "in_loop")
+    """interpreter state: variable environment, whether a syscall has been issued on this path, the enclosing retry loop,
+    and — inside an inlined helper — where `return` goes (ret_k) and which helpers are being inlined (stack)"""
+    __slots__ = ("env", "has_reg", "loop_break", "in_loop", "ret_k", "stack")
 
-    def __init__(self, env, has_reg=False, loop_break=None, in_loop=False):
-        self.env, self.has_reg, self.loop_break, self.in_loop = env, has_reg, loop_break, in_loop
+    def __init__(self, env, has_reg=False, loop_break=None, in_loop=False, ret_k=None, stack=()):
+        self.env, self.has_reg, self.loop_break, self.in_loop, self.ret_k, self.stack = env, has_reg, loop_break, in_loop, ret_k, stack
 
     def bind(self, name, val):
         env = dict(self.env)
         env[name] = val
-        return St(env, self.has_reg, self.loop_break, self.in_loop)
+        return St(env, self.has_reg, self.loop_break, self.in_loop, self.ret_k, self.stack)
 
     def with_env(self, env):
-        return St(env, self.has_reg, self.loop_break, self.in_loop)
+        return St(env, self.has_reg, self.loop_break, self.in_loop, self.ret_k, self.stack)
 
     def with_reg(self):
-        return St(self.env, True, self.loop_break, self.in_loop)
+        return St(self.env, True, self.loop_break, self.in_loop, self.ret_k, self.stack)
 
     def enter_loop(self, k_break):
-        return St(self.env, self.has_reg, k_break, True)
+        return St(self.env, self.has_reg, k_break, True, self.ret_k, self.stack)
 
 
 CTRL_TOKENS = {"return", "break", "continue", "?", "loop", "while", "for", "bail_on_below_zero", "syscall", "yield", "await"}
@@ -966,13 +978,24 @@ PURE_MACROS = {"debug_assert", "debug_assert_eq", "debug_assert_ne", "assert", "
 DIVERGING = {"unreachable_unchecked", "unreachable", "panic", "todo", "unimplemented", "abort", "exit"}
 
 
+def tree_has(t, kind):
+    if t[0] == kind:
+        return True
+    if t[0] == "br":
+        return tree_has(t[2], kind) or tree_has(t[3], kind)
+    if t[0] in ("sys", "loop"):
+        return tree_has(t[1], kind)
+    return False
+
+
 class Interp:
     """symbolic interpreter for one source file"""
 
-    def __init__(self, env_x, consts, callees=()):
+    def __init__(self, env_x, consts, callees=None):
         self.x = env_x            # Env: type aliases + errno values
         self.consts = consts      # name -> (type tokens, rhs tokens) of the file (and of platform/compat.rs)
-        self.callees = set(callees)
+        self.callees = dict(callees or {})   # fns of the same file that (transitively) issue a system call: inlined at the call
+        self.inlined = []
         self.post_checks = False
         self.const_busy = set()
 
@@ -1038,6 +1061,15 @@ class Interp:
             if stmt.rhs is None:
                 return knext(st)
             if "else" in stmt.rhs and find_at_depth0(stmt.rhs, 0, ("else",)) >= 0:
+                ei = find_at_depth0(stmt.rhs, 0, ("else",))
+                if not site and not self.toks_tainted(toks, st) and "Ok" not in stmt.rhs[ei:] and "continue" not in stmt.rhs[ei:] \
+                        and "break" not in stmt.rhs[ei:]:
+                    # a check of kernel-written memory that can only fail with an error (like `?` on such a value)
+                    self.post_checks = True
+                    s2 = st
+                    for nm in names:
+                        s2 = s2.bind(nm, ("opq", nm, False))
+                    return knext(s2)
                 return ("unk", "let-else after the syscall: " + text_of(toks)[:100])
 
             def bound(v, s2):
@@ -1054,6 +1086,11 @@ class Interp:
                 return knext(s2)
             return self.ev_toks(stmt.rhs, st, bound)
         # expression statement
+        if not relevant and not st.has_reg and "return" in toks and "Ok" in toks:
+            # an early `return Ok(..)` before the system call skips the call: follow it if it can be followed
+            probe = self.ev_toks(toks, st, lambda v, s2: ("fall",))
+            if not tree_has(probe, "unk") and tree_has(probe, "ret"):
+                return self.ev_toks(toks, st, lambda v, s2: knext(s2))
         if not relevant:
             return knext(st)
         return self.ev_toks(toks, st, lambda v, s2: knext(s2))
@@ -1289,11 +1326,41 @@ class Interp:
             return ("iserr", args[0])
         if last in self.x.coerce_fns and len(args) == 2:
             return ("coerce", args[0])
-        if len(segs) == 1 and last in self.callees:
-            return ("callw", last)
         if last[0].isupper() or last == "Self":
             return ("ctor", last, args)
         return ("opq", "%s(%s)" % ("::".join(segs), ", ".join(show(a) for a in args)), any(tainted(a) for a in args))
+
+    @staticmethod
+    def do_ret(v, st):
+        """`return v` (also the early returns hidden in `?` and the bail macro): out of the function, or back to the caller
+        of an inlined helper"""
+        return st.ret_k(v, st) if st.ret_k is not None else ("ret", v)
+
+    def inline(self, name, args, st, k):
+        """a call of a fn of the same file that issues the system call: run its body here, parameters bound to the arguments"""
+        fn = self.callees[name]
+        if name in st.stack or len(st.stack) >= 4:
+            return ("unk", "recursive / too deeply nested helper `%s`" % name)
+        if len(fn["params"]) != len(args):
+            return ("unk", "helper `%s` called with another number of arguments" % name)
+        env = {}
+        for p, a in zip(fn["params"], args):
+            m = re.match(r"(mut\s+)?([A-Za-z_]\w*)\s*:", p)
+            if not m:
+                return ("unk", "helper `%s` has a pattern parameter" % name)
+            env[m.group(2)] = ("opq", "mut " + m.group(2), tainted(a)) if m.group(1) and tainted(a) else a
+        if name not in self.inlined:
+            self.inlined.append(name)
+        caller = st
+
+        def back(v, s):
+            return k(v, St(caller.env, s.has_reg, caller.loop_break, caller.in_loop, caller.ret_k, caller.stack))
+        try:
+            body = tokenize(fn["body"])
+        except ParseError as e:
+            return ("unk", "cannot tokenise helper `%s`: %s" % (name, e))
+        inner = St(env, st.has_reg, None, False, back, st.stack + (name,))
+        return self.exec_block(body, inner, lambda v, s: back(v, s))
 
     def ev(self, e, st, k):
         kind = e[0]
@@ -1346,12 +1413,9 @@ class Interp:
                     return ("noret",)
 
                 def called(args, s):
-                    v = self.call(segs, args)
-                    if v[0] == "callw":
-                        if s.has_reg:
-                            return ("unk", "second system call on one path")
-                        return ("sysw", v[1], k(v, s.with_reg()))
-                    return k(v, s)
+                    if len(segs) == 1 and segs[0] in self.callees:
+                        return self.inline(segs[0], args, s, k)
+                    return k(self.call(segs, args), s)
                 return self.ev_list(e[2], st, called)
             return self.ev(f, st, lambda fv, s: self.ev_list(e[2], s, lambda args, s2: k(
                 ("opq", "%s(..)" % show(fv), tainted(fv) or any(tainted(a) for a in args)), s2)))
@@ -1390,13 +1454,11 @@ class Interp:
         if kind == "try":
             def tried(v, s):
                 if v[0] == "coerce":
-                    return ("br", ("iserr", v[1]), ("ret", ("coerce_err", v[1])), k(("coerce_ok", v[1]), s))
+                    return ("br", ("iserr", v[1]), self.do_ret(("coerce_err", v[1]), s), k(("coerce_ok", v[1]), s))
                 if v[0] == "ok":
                     return k(v[1], s)
-                if v[0] == "err":
-                    return ("ret", v)
-                if v[0] == "callw":
-                    return ("unk", "result of a wrapper post-processed with `?`")
+                if v[0] in ("err", "bailerr", "coerce_err"):
+                    return self.do_ret(v, s)
                 if tainted(v):
                     return ("unk", "`?` on a register-derived value: " + show(v)[:80])
                 if s.has_reg:
@@ -1410,7 +1472,7 @@ class Interp:
                     return ("unk", "second system call on one path")
                 return ("sys", k(REG, st.with_reg()))
             if name in self.x.bail_macros and len(args) == 2:
-                return self.ev_toks(args[0], st, lambda v, s: ("br", ("iserr", v), ("ret", ("bailerr", v)), k(UNIT, s)))
+                return self.ev_toks(args[0], st, lambda v, s: ("br", ("iserr", v), self.do_ret(("bailerr", v), s), k(UNIT, s)))
             if name in DIVERGING:
                 return ("noret",)
             if name == "matches" and len(args) == 2 and "if" not in args[1]:
@@ -1489,13 +1551,13 @@ class Interp:
             return k(("opq", e[1] + " {..}", t), st)
         if kind == "return":
             if e[1] is None:
-                return ("ret", UNIT)
-            return self.ev(e[1], st, lambda v, s: ("ret", v))
+                return self.do_ret(UNIT, st)
+            return self.ev(e[1], st, lambda v, s: self.do_ret(v, s))
         if kind == "break":
             if st.loop_break is None:
                 return ("unk", "break outside the retry loop")
             kb = st.loop_break
-            return kb(UNIT, St(st.env, st.has_reg, None, False))
+            return kb(UNIT, St(st.env, st.has_reg, None, False, st.ret_k, st.stack))
         if kind == "continue":
             return ("cont",) if st.in_loop else ("unk", "continue outside the retry loop")
         return ("unk", "unsupported expression " + kind)
@@ -1712,7 +1774,7 @@ class Norm:
             return ("FALL",)
         if k == "unk":
             raise unk_exc(t)
-        if k in ("sys", "sysw", "loop"):
+        if k in ("sys", "loop"):
             raise Opaque("second system call on one path")
         raise Opaque("unexpected tree node " + k)
 
@@ -1784,11 +1846,12 @@ class Norm:
         return self.simple(d)
 
     def skeleton(self, tree, fn):
-        """-> ("skel", lean term) | ("via", callee)"""
+        """-> Lean Skel term of a whole function body (helpers already inlined)"""
         if fn["ret"] == "!":
-            return ("skel", ".noRet")
+            return ".noRet"
         has_result = "Result" in fn["ret"]
         found = []
+        early_ok = []
 
         def walk(t, in_loop):
             k = t[0]
@@ -1796,20 +1859,16 @@ class Norm:
                 walk(t[2], in_loop)
                 walk(t[3], in_loop)
             elif k == "sys":
-                found.append(("skel", self.decode(t[1], has_result, in_loop)))
+                found.append(self.decode(t[1], has_result, in_loop))
             elif k == "loop":
                 b = t[1]
-                if b[0] in ("sys", "sysw"):
+                if b[0] == "sys":
                     walk(b, True)
                 elif contains_sys(b):
                     raise Suspect("decisions before the system call inside the retry loop")
-            elif k == "sysw":
-                if in_loop:
-                    raise Suspect("wrapper called in a loop")
-                if t[2] == ("ret", ("callw", t[1])):
-                    found.append(("via", t[1]))
-                else:
-                    raise Opaque("result of `%s` post-processed" % t[1])
+            elif k == "ret":
+                if has_result and t[1][0] == "ok":
+                    early_ok.append(show(t[1])[:60])
             elif k == "unk":
                 raise unk_exc(t)
         walk(tree, False)
@@ -1819,8 +1878,10 @@ class Norm:
                 uniq.append(f)
         if not uniq:
             raise Opaque("no path reaches the system call")
+        if early_ok:
+            raise Suspect("a path returns %s without issuing the system call" % early_ok[0])
         if len(uniq) > 1:
-            raise Suspect("system call sites decode differently: " + " | ".join(u[1] for u in uniq))
+            raise Suspect("system call sites decode differently: " + " | ".join(uniq))
         return uniq[0]
 
 
@@ -1832,7 +1893,7 @@ def has_cont(d):
 
 
 def contains_sys(t):
-    if t[0] in ("sys", "sysw"):
+    if t[0] == "sys":
         return True
     if t[0] == "br":
         return contains_sys(t[2]) or contains_sys(t[3])
@@ -2222,7 +2283,7 @@ def accessor_of_ret(env, ret):
 
 
 def analyse_fn(env, nm, fn, consts, callees):
-    """-> (("skel", term) | ("via", callee) | ("opaque", reason) | ("suspect", reason), post_checks)"""
+    """-> (("skel", term) | ("opaque", reason) | ("suspect", reason), post_checks, helpers inlined)"""
     it = Interp(env, consts, callees)
     try:
         toks = tokenize(fn["body"])
@@ -2232,15 +2293,29 @@ def analyse_fn(env, nm, fn, consts, callees):
             if n:
                 st = st.bind(n, ("opq", n, False))
         tree = it.exec_block(toks, st, lambda v, s: ("ret", v))
-        return nm.skeleton(tree, fn), it.post_checks
+        return ("skel", nm.skeleton(tree, fn)), it.post_checks, it.inlined
     except Suspect as e:
-        return ("suspect", str(e)), it.post_checks
+        return ("suspect", str(e)), it.post_checks, it.inlined
     except Opaque as e:
-        return ("opaque", str(e)), it.post_checks
+        return ("opaque", str(e)), it.post_checks, it.inlined
     except ParseError as e:
-        return ("opaque", "cannot parse: %s" % e), it.post_checks
+        return ("opaque", "cannot parse: %s" % e), it.post_checks, it.inlined
     except RecursionError:
-        return ("opaque", "body too deeply nested for the interpreter"), it.post_checks
+        return ("opaque", "body too deeply nested for the interpreter"), it.post_checks, it.inlined
+
+
+def same_ret(a, b):
+    norm = lambda r: r.replace("crate::", "").replace("error::", "").replace(" ", "")
+    return norm(a["ret"]) == norm(b["ret"])
+
+
+def mentions(fn, name):
+    return re.search(r"(?<![\w.:])%s\s*\(" % re.escape(name), fn["body"]) is not None
+
+
+def is_helper(fn):
+    """a fn the harness cannot call (not exported, or generic): never a row — inlined into its exported callers"""
+    return fn["ret"] != "!" and (not fn["pub"] or bool(fn["generics"].strip()))
 
 
 def extract(write=True):
@@ -2253,6 +2328,7 @@ def extract(write=True):
             compat_consts.update(file_consts(path))
     wrappers = []
     skipped = []
+    helpers = []
     for path in rs_files():
         rel = os.path.relpath(path, SRC)
         if os.path.basename(path) in ("test.rs", "tests.rs") or "/test/" in rel or rel.startswith("platform/"):
@@ -2264,47 +2340,45 @@ def extract(write=True):
         consts = dict(compat_consts)
         consts.update(file_consts(path))
         top = rel.split("/")[0].replace(".rs", "")
-        local = {}
-        pending = []
+        pending = {}
         for fn in fns:
             gated = [a for a in fn["attrs"] if re.match(r"#\[cfg\(", a)]
             if any(not cfg_holds(re.match(r"#\[cfg\((.*)\)\]$", a).group(1)) for a in gated):
                 if "syscall!(" in fn["body"]:
                     skipped.append({"name": top + "::" + fn["name"], "file": rel, "why": "cfg'd out of the x86_64 build: " + " ".join(gated)})
                 continue
-            pending.append(fn)
-
-        def add(fn, via_ok):
+            if fn["name"] not in pending:
+                pending[fn["name"]] = fn
+        # the fns of this file that are (part of) a wrapper: they issue the system call themselves, or call a helper that
+        # does, or are a thin variant of an exported wrapper (call it and return what it returns).  A fn that calls an
+        # exported wrapper and returns something else is a USER of the wrapper, not a wrapper.
+        wrapperish = {n for n, fn in pending.items() if "syscall!(" in fn["body"]}
+        changed = True
+        while changed:
+            changed = False
+            for n, fn in pending.items():
+                if n in wrapperish or fn["nested"]:
+                    continue
+                called = [c for c in wrapperish if mentions(fn, c)]
+                if any(is_helper(pending[c]) or same_ret(fn, pending[c]) for c in called):
+                    wrapperish.add(n)
+                    changed = True
+        used = set()
+        for n in sorted(wrapperish):
+            fn = pending[n]
+            if is_helper(fn) and not fn["nested"]:
+                continue
+            callees = {c: pending[c] for c in wrapperish if c != n and not pending[c]["nested"]}
             if fn["nested"]:
-                res, pc = ("opaque", "syscall! inside an impl/trait/nested item"), False
+                res, pc, inl = ("opaque", "syscall! inside an impl/trait/nested item"), False, []
             else:
-                res, pc = analyse_fn(env, nm, fn, consts, [n for n in local if n != fn["name"]] if via_ok else [])
+                res, pc, inl = analyse_fn(env, nm, fn, consts, callees)
+            used.update(inl)
             w = {"name": top + "::" + fn["name"], "fn": fn["name"], "top": top, "file": rel, "line": fn["line"],
                  "sites": len(re.findall(r"\bsyscall!\(", fn["body"])), "pub": fn["pub"], "unsafe": fn["unsafe"],
-                 "params": fn["params"], "ret": fn["ret"], "cat": ret_category(env, fn["ret"]), "via": None, "opaque": None, "suspect": None,
+                 "params": fn["params"], "ret": fn["ret"], "cat": ret_category(env, fn["ret"]), "via": inl[0] if inl else None,
+                 "inlined": list(inl), "opaque": None, "suspect": None,
                  "acc": accessor_of_ret(env, fn["ret"]), "post_checks": pc}
-            if res[0] == "via":
-                callee = local[res[1]]
-                w["via"] = callee["fn"]
-                if callee["suspect"]:
-                    res = ("suspect", "delegates to `%s`: %s" % (callee["fn"], callee["suspect"]))
-                elif callee["opaque"]:
-                    res = ("opaque", "delegates to `%s`, which is opaque" % callee["fn"])
-                elif callee["ret"].replace("crate::", "").replace("error::", "") != fn["ret"].replace("crate::", "").replace("error::", ""):
-                    res = ("opaque", "delegates to `%s` with another return type" % callee["fn"])
-                else:
-                    res = ("skel", callee["skel"])
-                    w["post_checks"] = callee["post_checks"]
-            elif via_ok:
-                # calls a wrapper of this file but is not a plain delegation: a row (opaque) only when it returns what the
-                # callee returns (a thin variant of the wrapper); anything else is a user of the wrapper, not a wrapper
-                m = [n for n in local if re.search(r"(?<![\w.:])%s\s*\(" % re.escape(n), fn["body"])]
-                same = [n for n in m if local[n]["ret"].replace("crate::", "").replace("error::", "") == fn["ret"].replace("crate::", "").replace("error::", "")]
-                if not same:
-                    return False
-                w["via"] = same[0]
-                if res[0] not in ("opaque", "suspect"):
-                    res = ("opaque", "calls `%s` and post-processes" % same[0])
             if fn["ret"] == "!":
                 res = ("skel", ".noRet")
             if res[0] == "opaque":
@@ -2315,30 +2389,17 @@ def extract(write=True):
                 w["skel"] = ".custom " + lean_str("not a shape the property allows: " + res[1])
             else:
                 w["skel"] = res[1]
-            local[fn["name"]] = w
             wrappers.append(w)
-            return True
-
-        for fn in pending:
-            if "syscall!(" in fn["body"]:
-                add(fn, False)
-        # fns of the same file that call a wrapper (transitively): delegates
-        changed = True
-        rejected = set()
-        while changed:
-            changed = False
-            for fn in pending:
-                if fn["name"] in local or fn["nested"]:
-                    continue
-                if fn["name"] in rejected:
-                    continue
-                if any(re.search(r"(?<![\w.:])%s\s*\(" % re.escape(n), fn["body"]) for n in local):
-                    if add(fn, True):
-                        changed = True
-                    else:
-                        rejected.add(fn["name"])
+        for n in sorted(wrapperish):
+            fn = pending[n]
+            if is_helper(fn) and not fn["nested"]:
+                # textual reachability from a row, in case the interpreter gave up before it got to the call
+                reached = n in used or any(mentions(pending[r], n) for r in wrapperish if r != n and not (is_helper(pending[r]) and not pending[r]["nested"]))
+                via_helper = any(mentions(pending[r], n) for r in wrapperish if r != n and is_helper(pending[r]))
+                helpers.append({"name": top + "::" + n, "file": rel, "line": fn["line"], "generic": bool(fn["generics"].strip()),
+                                "reached": bool(reached or via_helper)})
     wrappers.sort(key=lambda w: w["name"])
-    meta = {"cfg": cfg, "problems": problems, "unknown": unknown, "observed": [], "wrappers": wrappers, "skipped": skipped}
+    meta = {"cfg": cfg, "problems": problems, "unknown": unknown, "observed": [], "wrappers": wrappers, "skipped": skipped, "helpers": helpers}
     if write:
         write_lean(meta)
         write_rs(meta)
@@ -2407,3 +2468,5 @@ if __name__ == "__main__":
             print("%-34s %-5s %-8s %s%s" % (w["name"], "pub" if w["pub"] else "priv", w["cat"], w["skel"], (" via " + w["via"]) if w["via"] else ""))
         for s in m["skipped"]:
             print("skipped", s)
+        for h in m["helpers"]:
+            print("helper", h)
